@@ -44,9 +44,9 @@ func init() {
 			c.P.Rule = "well-formed grammar files rendered from rapid-drawn specifications of every family (conflicted, multi-way conflicts, precedence, nullable cycles, duplicated rules, random layout)"
 			r := newC13Runner(c)
 			defer r.close()
-			c.Rapid("grammars", c.Pick(1500, 30000), func(t *rapid.T) {
+			c.Rapid("grammars", c.Pick(1500, 8000), func(t *rapid.T) {
 				fams := []string{"uniform", "uniform-small", "productive", "nullable", "prec", "prec-sep", "separators", "lalr", "dup-rules", "samehandle", "decl"}
-				if rare(t, "big", c.Pick(400, 150)) {
+				if rare(t, "big", c.Pick(400, 400)) {
 					// grammars at and beyond the 2000-state limit: yaccgo must stop with its diagnostic
 					fams = []string{"blowup", "bigauto", "hugerule"}
 				}
